@@ -49,7 +49,7 @@ if [ $res_build = yes ]; then
     rm -f "$WT/$DEMODIR/zz_seed_demo_test.go"
   fi
   if [ -n "$DEMOSH" ]; then
-    if (SRC="$WT" timeout 1200 bash "$DEMOSH" >"$OUT/demo_with_change.txt" 2>&1); then res_demo_with=pass; else res_demo_with=fail; fi
+    if (cd "$WT" && SRC="$WT" timeout 1200 bash "$DEMOSH" >"$OUT/demo_with_change.txt" 2>&1); then res_demo_with=pass; else res_demo_with=fail; fi
   fi
 fi
 log "apply=$res_apply build=$res_build suite_passes_with_change=$res_tests demo_with_change=$res_demo_with"
@@ -76,7 +76,7 @@ if [ -n "$DEMO" ] && [ -n "$DEMODIR" ]; then
 fi
 if [ -n "$DEMOSH" ]; then
   (cd "$WT" && git checkout -q -- . && git clean -fdq)
-  if (SRC="$WT" timeout 1200 bash "$DEMOSH" >"$OUT/demo_without_change.txt" 2>&1); then res_demo_without=pass; else res_demo_without=fail; fi
+  if (cd "$WT" && SRC="$WT" timeout 1200 bash "$DEMOSH" >"$OUT/demo_without_change.txt" 2>&1); then res_demo_without=pass; else res_demo_without=fail; fi
   log "demo_without_change=$res_demo_without"
 fi
 python3 - "$OUT" "$PROP" "$NAME" "$TIER" "$res_apply" "$res_build" "$res_tests" "$res_demo_with" "$res_demo_without" "$DEMODIR" "$(for k in "${!caught[@]}"; do echo -n "$k=${caught[$k]} "; done)" "$(git -C /repo log --format=%h -1)" <<'EOF'
